@@ -213,6 +213,7 @@ def _diff(
     relink: bool = False,
     ignore: Optional["Ignore"] = None,
     old: Union["HashFile", "Tree", None] = None,
+    force: bool = False,
 ):
     if old is None:
         try:
@@ -230,7 +231,11 @@ def _diff(
                 ignore=ignore,
             )
         except FileNotFoundError:
-            pass
+            # NOTE: if `path` exists but could not be scanned (e.g. there is a
+            # broken symlink in it), we don't know what it holds, so we can't
+            # treat it as empty unless we are allowed to overwrite it anyway.
+            if not force and fs.exists(path):
+                raise
 
     diff = odiff(old, obj, cache)
     if relink:
@@ -383,6 +388,7 @@ def checkout(  # noqa: PLR0913
         relink=relink,
         ignore=ignore,
         old=old,
+        force=force,
     )
 
     failed = []
